@@ -5,6 +5,7 @@ import (
 	"testing"
 
 	"github.com/aergoio/aergo/v2/zz_verif/simkit"
+	"github.com/aergoio/aergo/v2/zz_verif/worlds/exec"
 	"github.com/aergoio/aergo/v2/zz_verif/worlds/store"
 )
 
@@ -12,6 +13,8 @@ func Get(name, scratch string, m *testing.M) simkit.World {
 	switch name {
 	case "store-trie":
 		return &store.C10{Scratch: scratch}
+	case "exec":
+		return &exec.World{Scratch: scratch}
 	case "store-proof":
 		return &store.C11{Scratch: scratch}
 	case "store-snap":
